@@ -66,10 +66,36 @@ AppendLeaf(s) ==
                      !.lp  = Append(@, p),
                      !.tm  = IF keep /\ Len(@) = p THEN Append(@, LeafTerm(p, d)) ELSE <<>>])
 
+\* PMMR::rewind to the size the MMR had with k leaves: every per-position array is cut at that size
+\* (positions are assigned in insertion order, so the size is the position of leaf k+1), parents that
+\* were cut are forgotten, the peaks are the parentless nodes left.  RewindIsPrefix (below) states that
+\* this is exactly the MMR of the first k leaves - what every rewind of a backend relies on.
+SizeAt(s, k) == IF k = NL(s) THEN Size(s) ELSE s.lp[k + 1]
+RECURSIVE PeaksOf(_, _, _)
+PeaksOf(par, p, acc) == IF p > Len(par) THEN acc ELSE PeaksOf(par, p + 1, IF par[p] = -1 THEN Append(acc, p - 1) ELSE acc)
+Truncate(s, k) ==
+  LET sz == SizeAt(s, k)
+      par2 == [p \in 1..sz |-> IF s.par[p] >= sz THEN -1 ELSE s.par[p]]
+  IN [ht |-> SubSeq(s.ht, 1, sz), par |-> par2, lc |-> SubSeq(s.lc, 1, sz), rc |-> SubSeq(s.rc, 1, sz),
+      pk |-> PeaksOf(par2, 1, <<>>), lp |-> SubSeq(s.lp, 1, k),
+      tm |-> IF k <= TermLeaves /\ Len(s.tm) >= sz THEN SubSeq(s.tm, 1, sz) ELSE <<>>]
+
 Init == m = Empty
 Push == NL(m) < MaxLeaves /\ m' = AppendLeaf(m)
+Rewind(k) == k \in 0..NL(m) /\ m' = Truncate(m, k)
 Next == Push
 Spec == Init /\ [][Next]_vars
+\* with rewinds (separate configuration: the construction invariants above are checked without them)
+NextRW == Push \/ \E k \in 0..NL(m) : Rewind(k)
+SpecRW == Init /\ [][NextRW]_vars
+
+RECURSIVE BuildN(_)
+BuildN(k) == IF k = 0 THEN Empty ELSE AppendLeaf(BuildN(k - 1))
+\* the state is always the MMR of its leaf count, whatever pushes and rewinds led to it; with terms kept
+\* only up to TermLeaves the comparison is on the structure when terms were dropped
+SameShape(a, b) == a.ht = b.ht /\ a.par = b.par /\ a.lc = b.lc /\ a.rc = b.rc /\ a.pk = b.pk /\ a.lp = b.lp
+RewindIsPrefix == \A k \in 0..NL(m) : LET t == Truncate(m, k) b == BuildN(k) IN
+                     SameShape(t, b) /\ (KeepTerms(m) => t.tm = b.tm)
 
 -----------------------------------------------------------------------------
 (* Definitional observers over the constructed forest s *)
